@@ -4,7 +4,7 @@
    H is an arbitrary hash function; [roots] is the naive forest over all leaves ever added;
    [add_leaves] is the carry chain of addLeaves; [recompute] is updateLeaves' recursion. *)
 From Coq Require Import List NArith.
-From Sia Require Import Prim.Tok Merkle.Tree Merkle.Update Merkle.UpdateProofs Merkle.Forest Merkle.Acc Merkle.AccProofs.
+From Sia Require Import Prim.Tok Merkle.Tree Merkle.Update Merkle.UpdateProofs Merkle.Forest Merkle.Acc Merkle.AccProofs Merkle.Growth.
 Import ListNotations.
 
 (* after every block list, every leaf's naive proof verifies against the accumulator and
@@ -86,3 +86,12 @@ Theorem C05_update_flow : forall (node : hash -> hash -> hash) d t ls p,
   rt = root hash node t' /\ update_proof hash node p (sibs hash node t p) ls' = sibs hash node t' p.
 Proof. exact (update_flow hash). Qed.
 Print Assumptions C05_update_flow.
+
+(* ---- appending leaves (addLeaves): what treeGrowth stores ---- *)
+(* however many leaves are appended, the proof of an old leaf in the grown forest is its old proof followed by a list
+   of hashes that depends only on the height of the tree the leaf was in: one extension per old tree *)
+Theorem C05_growth_uniform : forall H A L h, exists g, forall k t r,
+  locate (forest_of L) k = Some (t, r) -> height hash t = h ->
+  naive_proof H (L ++ A) k = (naive_proof H L k ++ g)%list.
+Proof. exact growth_uniform. Qed.
+Print Assumptions C05_growth_uniform.
